@@ -56,6 +56,14 @@ func pause(us int64) {
 	}
 }
 
+// free: the stamp of the t-th tick (Stamps is cycled through; empty = time.Now())
+func (c Case) stampOf(t int64) []any {
+	if len(c.Stamps) == 0 {
+		return nil
+	}
+	return c.Stamps[int(t-1)%len(c.Stamps)]
+}
+
 func runFree(c Case) Out {
 	out := Out{ID: c.ID}
 	var clock, curTick atomic.Int64
@@ -68,6 +76,7 @@ func runFree(c Case) Out {
 		mu.Unlock()
 	}
 	tk := &rticker{c: make(chan time.Time)}
+	st := newStamper()
 	tw, err := collection.NewTimingWheelWithTicker(time.Duration(c.Interval), c.N, record, tk)
 	if err != nil {
 		out.Err = err.Error()
@@ -135,7 +144,7 @@ func runFree(c Case) Out {
 		s := clock.Add(1)
 		taken := true
 		select {
-		case tk.c <- time.Now():
+		case tk.c <- st.stamp(c.stampOf(t)):
 		case <-stopCh:
 			taken = false // Stop has returned; the loop may be gone: this tick did not happen
 		}
@@ -148,14 +157,14 @@ func runFree(c Case) Out {
 		// and the goroutine running this tick's callbacks has been started
 		tw.RemoveTimer(sentinel)
 		if !hx.Quiesce(cbBusy, 30*time.Second) {
-			out.Err = "callbacks did not quiesce"
+			out.Stuck = "callbacks did not quiesce"
 			return out
 		}
 		res.Ticks = append(res.Ticks, FreeTick{S: s, E: e})
 	}
 	wg.Wait()
 	if !hx.Quiesce(cbBusy, 30*time.Second) {
-		out.Err = "callbacks did not quiesce"
+		out.Stuck = "callbacks did not quiesce"
 		return out
 	}
 	mu.Lock()
